@@ -124,6 +124,12 @@ const minSec, maxSec = -62135596800 + 86400, 253402300799 - 86400*2
 
 func genTime(t *rapid.T, label string, exotic bool) (time.Time, string) {
 	if rapid.IntRange(0, 9).Draw(t, label+"_zero") == 0 {
+		if rapid.Bool().Draw(t, label+"_zeroInZone") {
+			// the zero instant shown in a zone: IsZero() is true, yet it is not the value time.Time{} (other offset,
+			// other text form, other header hash)
+			loc, zc := genZone(t, label+"_zz", exotic)
+			return time.Time{}.In(loc), "zero_instant_in_zone_" + zc
+		}
 		return time.Time{}, "zero_time"
 	}
 	var sec int64
